@@ -703,9 +703,20 @@ Fixpoint negation_free (e : sexpr) : bool :=
   | XAnd a b | XOr a b => negation_free a && negation_free b
   | _ => true
   end.
-Definition null_free (info : index_info) (tbl : list rowT) : bool :=
-  forallb (fun r => forallb (fun cv => match info (fst cv), snd cv with Some _, None => false | _, _ => true end)
-                            (combine (map N.of_nat (seq 0 (length (rvals r)))) (rvals r))) tbl.
+(* the columns a predicate compares / tests *)
+Definition tcols (t : term) : list N := match t with TCol c => [c] | _ => [] end.
+Fixpoint pcols (e : sexpr) : list N :=
+  match e with
+  | XCol c => [c]
+  | XCmp _ l _ => tcols l
+  | XBetween _ t _ _ | XInList _ t _ | XFn _ t _ | XIsNull t | XIsNotNull t => tcols t
+  | XIsTrue x | XIsFalse x | XNot x => pcols x
+  | XAnd a b | XOr a b => pcols a ++ pcols b
+  | XOther _ => []
+  end.
+(* no indexed column the predicate looks at holds a NULL *)
+Definition null_free (info : index_info) (tbl : list rowT) (p : sexpr) : bool :=
+  forallb (fun r => forallb (fun c => match info c, val r c with Some _, None => false | _, _ => true end) (pcols p)) tbl.
 
 (* ================================================================ finding: maybe_range swaps the inclusivity *)
 Definition swapped_pair (opl opr : cmpop) : bool :=
@@ -738,12 +749,12 @@ Definition Known_C19_range_bounds_swapped (info : index_info) (tbl : list rowT) 
 Definition parser_ok (p : parser) : bool := match p with PBloom rc => rc | _ => true end.
 
 (* a Boolean column holds false = 0 / true = 1 *)
+Definition columns_of (r : rowT) : list N := map N.of_nat (seq 0 (length (rvals r))).
 Definition row_ok (info : index_info) (r : rowT) : bool :=
-  forallb (fun cv => match info (fst cv), snd cv with
-                     | Some ci, Some z => if ci_bool ci then (z =? 0)%Z || (z =? 1)%Z else true
-                     | _, _ => true
-                     end)
-          (combine (map N.of_nat (seq 0 (length (rvals r)))) (rvals r)).
+  forallb (fun c => match info c, val r c with
+                    | Some ci, Some z => if ci_bool ci then (z =? 0)%Z || (z =? 1)%Z else true
+                    | _, _ => true
+                    end) (columns_of r).
 
 Fixpoint sdepth (e : sexpr) : N :=
   match e with
